@@ -4,8 +4,11 @@
    generate-envelope), every fact the libraries may report about the answered
    bytes, every payload tree (any nesting, duplicated members, null, any
    spelling of member names), every requested descriptor, both entry points
-   (Sign, SignBlob). [model i] is what PluginSigner returns. *)
-From NV Require Import Base C18_Json C18_Model C18_Proofs.
+   (Sign, SignBlob). [model i] is what PluginSigner returns when every command the signer
+   calls answers a non-nil response or an error; [model_n n i] is what it returns when the
+   commands flagged in [n] answer a nil response with a nil error instead ([model_n no_nils]
+   is [model]). The clause-by-clause audit of these statements is docs/audit/C18.md. *)
+From NV Require Import Base C18_Json C18_Model C18_Proofs C18_Audit.
 
 (* Envelope-generator plugin (no raw capability): a signature is returned only if it is
    the plugin's envelope untouched, echoed with the requested format, parsing and verifying
@@ -163,3 +166,197 @@ Example C18_example_raw :
   model i = mk_obs (RSig false (Some (mk_ret true payload_type "m" "sha256:aa" 5 [("k", "v")] true true (Some ES384))))
                    (Some ("EC-384", "SHA-384")) 384.
 Proof. repeat split; vm_compute; reflexivity. Qed.
+
+(* ====================== added by the theorem audit (docs/audit/C18.md) ====================== *)
+
+(* --- "only if" is "exactly if": the converses of C18_envelope and C18_raw, with the
+   conditions spelled out (C18_signature_iff_accepted says it through the boolean [accepts]) --- *)
+Theorem C18_envelope_exact : forall i f j d,
+  i_meta i = MCaps false true ->
+  i_ge i = GEAns f ->
+  ge_type f = i_mt i -> i_mt_ok i = true -> ge_parse f = true -> ge_verify f = true ->
+  ge_ctype f = payload_type ->
+  ge_payload f = Some j -> dec_payload j = Some d ->
+  d_mt d = i_dmt i -> d_dg d = i_ddg i -> d_sz d = i_dsz i ->
+  (forall k v, In (k, v) (i_dann i) -> lookup k (d_ann d) = Some v) ->
+  (forall ms, j = JObj ms -> forall k v, In (k, v) ms ->
+      k = "targetArtifact" /\
+      forall dms, v = JObj dms -> forall k' v', In (k', v') dms -> In k' known_names) ->
+  (i_blob i = true -> exists ks k, i_dk i = DKAns (i_keyid i) ks /\ decode_keyspec ks = Some k) ->
+  o_res (model i) = RSig true None.
+Proof. exact envelope_complete. Qed.
+Print Assumptions C18_envelope_exact.
+
+Theorem C18_raw_exact : forall i env ks k a f,
+  i_meta i = MCaps true env ->
+  i_dk i = DKAns (i_keyid i) ks -> decode_keyspec ks = Some k -> alg_of_keyspec k = Some a ->
+  i_mt_ok i = true ->
+  i_gs i = GSAns f -> gs_keyid f = i_keyid i -> gs_chain_parse f = true ->
+  gs_sig_empty f = false -> gs_chain_len f <> 0%N -> gs_chain_valid f = true ->
+  gs_leaf_alg f = Some a -> gs_sig_ok f = true ->
+  o_res (model i) = RSig false (Some (mk_ret true payload_type (i_dmt i) (i_ddg i) (i_dsz i) (i_dann i) true true (Some a))).
+Proof. exact raw_complete. Qed.
+Print Assumptions C18_raw_exact.
+
+(* a failing get-plugin-metadata, or a plugin without a signing capability: always an error *)
+Theorem C18_no_capability_error : forall i,
+  i_meta i = MErr \/ i_meta i = MCaps false false -> exists e, o_res (model i) = RErr e.
+Proof. exact no_capability_error. Qed.
+Print Assumptions C18_no_capability_error.
+
+(* --- the accepted payload read on the TREE (not through the decoder): among the members of
+   all "targetArtifact" objects, in document order ([ta_members]), the LAST non-null
+   "mediaType" / "digest" / "size" member is the requested value (no such member: the
+   requested value is the zero value), every requested annotation stands literally in an
+   "annotations" object, and every member name is one of the eight descriptor names.
+   Duplicated members are accepted; the last one counts (Go's reading, which is also the
+   verifier's): see C18_example_last_duplicate_counts. --- *)
+Theorem C18_envelope_tree : forall i env same rf,
+  i_meta i = MCaps false env ->
+  o_res (model i) = RSig same rf ->
+  exists f j,
+    i_ge i = GEAns f /\ ge_payload f = Some j /\
+    match last_set "mediaType" (ta_members j) with Some v => v = JStr (i_dmt i) | None => i_dmt i = "" end /\
+    match last_set "digest" (ta_members j) with Some v => v = JStr (i_ddg i) | None => i_ddg i = "" end /\
+    match last_set "size" (ta_members j) with Some v => v = JInt (i_dsz i) | None => i_dsz i = 0%Z end /\
+    (forall k v, In (k, v) (i_dann i) ->
+       exists ams, In ("annotations", JObj ams) (ta_members j) /\
+                   (In (k, JStr v) ams \/ (In (k, JNull) ams /\ v = ""))) /\
+    (forall k v, In (k, v) (ta_members j) -> In k known_names).
+Proof. exact envelope_tree. Qed.
+Print Assumptions C18_envelope_tree.
+
+(* --- commands that answer a nil response with a nil error (fix 0b937c8) --- *)
+(* never a panic, for nil answers too *)
+Theorem C18_total_nil : forall n i,
+  o_res (model_n n i) <> RPanic /\
+  ((exists same rf, o_res (model_n n i) = RSig same rf) \/ (exists e, o_res (model_n n i) = RErr e)).
+Proof. exact total_n. Qed.
+Print Assumptions C18_total_nil.
+
+(* a signature never rests on a nil answer: it is returned only where [model] returns it
+   (so C18_envelope, C18_raw, C18_envelope_tree apply), and then no answer it used was nil *)
+Theorem C18_nil_signature : forall n i same rf,
+  o_res (model_n n i) = RSig same rf ->
+  o_res (model i) = RSig same rf /\ model_n n i = model i /\
+  n_meta n = false /\
+  (forall env, i_meta i = MCaps true env -> n_dk n = false /\ n_gs n = false) /\
+  (forall env, i_meta i = MCaps false env -> n_ge n = false /\ (i_blob i = true -> n_dk n = false)).
+Proof. exact nil_signature. Qed.
+Print Assumptions C18_nil_signature.
+
+(* a nil answer of a command the signer calls is an error, whatever the other answers are *)
+Theorem C18_nil_answer_error : forall n i,
+  (n_meta n = true -> model_n n i = mk_obs (RErr ENilMeta) None 0) /\
+  (forall raw env, n_meta n = false -> i_meta i = MCaps raw env -> n_dk n = true ->
+     i_blob i = true \/ raw = true -> model_n n i = mk_obs (RErr ENilDK) None 0) /\
+  (forall env k, n_meta n = false -> i_meta i = MCaps true env -> n_dk n = false -> get_keyspec i = inr k ->
+     n_gs n = true -> i_mt_ok i = true -> o_res (model_n n i) = RErr ENilGS /\ o_gs_req (model_n n i) <> None) /\
+  (n_meta n = false -> i_meta i = MCaps false true -> n_ge n = true ->
+     (i_blob i = true -> n_dk n = false /\ exists k, get_keyspec i = inr k) -> o_res (model_n n i) = RErr ENilGE).
+Proof. exact nil_answer_error. Qed.
+Print Assumptions C18_nil_answer_error.
+
+(* the signer as it was before that fix panicked on each of the four (kept as a refuted variant) *)
+Theorem C18_nil_answer_v0_refuted :
+  (forall blob raw, o_res (model_n_v0 (mk_nils true false false false) (nil_witness blob raw)) = RPanic) /\
+  (forall blob, o_res (model_n_v0 (mk_nils false true false false) (nil_witness blob true)) = RPanic) /\
+  (forall blob, o_res (model_n_v0 (mk_nils false false true false) (nil_witness blob true)) = RPanic) /\
+  (forall blob, o_res (model_n_v0 (mk_nils false false false true) (nil_witness blob false)) = RPanic) /\
+  (forall i, model_n_v0 no_nils i = model i).
+Proof. exact nil_answer_v0_refuted. Qed.
+Print Assumptions C18_nil_answer_v0_refuted.
+
+(* the oracle the harness evaluates ([run] uses [model_n] and [spec_ok_n]) *)
+Theorem C18_model_meets_oracle_nil : forall n i, wf i = true -> spec_ok_n n i (model_n n i) = true.
+Proof. exact model_n_spec_ok. Qed.
+Print Assumptions C18_model_meets_oracle_nil.
+
+Theorem C18_oracle_sound_nil : forall n i same rf o1 o2,
+  spec_ok_n n i (mk_obs (RSig same rf) o1 o2) = true -> accepts i = true /\ nil_used n i = false.
+Proof. exact spec_n_sig_accepts. Qed.
+Print Assumptions C18_oracle_sound_nil.
+
+(* what an observed signature that passes the oracle is, explicitly: on the raw path the
+   returned envelope (re-read through notation-core-go by the harness) verifies, has the
+   Notary payload type, the requested media type, digest and size, every requested
+   annotation, no other member, the plugin's chain and the algorithm of the described key
+   spec; on the envelope path it is the plugin's envelope and the answer is accepted *)
+Theorem C18_oracle_explicit : forall i same rf o1 o2,
+  spec_ok i (mk_obs (RSig same rf) o1 o2) = true ->
+  (exists env a r,
+      i_meta i = MCaps true env /\ dk_accept i = Some a /\ same = false /\ rf = Some r /\
+      r_verifies r = true /\ r_ctype r = payload_type /\
+      r_mt r = i_dmt i /\ r_dg r = i_ddg i /\ r_sz r = i_dsz i /\
+      (forall k v, In (k, v) (i_dann i) -> lookup k (r_ann r) = Some v) /\
+      r_clean r = true /\ r_chain_is_plugins r = true /\ r_alg r = Some a)
+  \/ (i_meta i = MCaps false true /\ same = true /\ env_accept i = true).
+Proof. exact spec_sig_explicit. Qed.
+Print Assumptions C18_oracle_explicit.
+
+(* --- non-vacuity of the statements above --- *)
+(* C18_envelope_exact / C18_envelope_tree: the hypotheses hold of C18_example_accepted's input *)
+Example C18_example_tree :
+  let j := JObj [("targetArtifact", ex_desc [("urls", JArr [JStr "u"])]); ("targetArtifact", JNull)] in
+  ta_members j = [("mediaType", JStr "m"); ("digest", JStr "sha256:aa"); ("size", JInt 5);
+                  ("annotations", JObj [("k", JStr "v")]); ("urls", JArr [JStr "u"])] /\
+  last_set "digest" (ta_members j) = Some (JStr "sha256:aa") /\
+  dec_payload j = Some (mk_dsc "m" "sha256:aa" 5 [("k", "v")]).
+Proof. repeat split; vm_compute; reflexivity. Qed.
+
+(* a duplicated "digest": the last one counts, in both directions; a null duplicate does not count *)
+Example C18_example_last_duplicate_counts :
+  let dup first second := ex_input (JObj [("targetArtifact",
+        JObj [("mediaType", JStr "m"); ("digest", first); ("size", JInt 5);
+              ("annotations", JObj [("k", JStr "v")]); ("digest", second)])]) in
+  o_res (model (dup (JStr "sha256:evil") (JStr "sha256:aa"))) = RSig true None /\
+  o_res (model (dup (JStr "sha256:aa") (JStr "sha256:evil"))) = RErr EDescChanged /\
+  o_res (model (dup (JStr "sha256:aa") JNull)) = RSig true None.
+Proof. repeat split; vm_compute; reflexivity. Qed.
+
+(* members below the descriptor level are not scanned: an unknown member inside "platform" is accepted *)
+Example C18_example_below_descriptor_level :
+  o_res (model (ex_input (JObj [("targetArtifact", ex_desc [("platform", JObj [("evil", JStr "x")])])]))) = RSig true None.
+Proof. vm_compute. reflexivity. Qed.
+
+(* C18_plain_reading: hypotheses met by a non-trivial member list *)
+Example C18_example_plain_reading :
+  let dms := [("size", JInt 5); ("digest", JStr "sha256:aa"); ("urls", JNull); ("mediaType", JStr "m")] in
+  NoDup (names dms) /\ (forall k', In k' (names dms) -> In k' known_names) /\
+  dec_dmembers dsc0 dms = Some (mk_dsc "m" "sha256:aa" 5 []).
+Proof.
+  cbn. split; [repeat constructor; cbn; intuition discriminate|].
+  split; [|reflexivity]. unfold known_names. cbn. intuition.
+Qed.
+
+(* C18_raw / C18_raw_exact / C18_codecs: an accepted raw answer exists for each of the six key
+   specs, for Sign and SignBlob, and the six names are exactly the ones that decode *)
+Definition ex_raw (blob : bool) (ks : string) (a : alg) : input :=
+  mk_input blob "application/cose" true "key1" "m" "sha256:aa" 5 [("k", "v")]
+           (MCaps true false) (DKAns "key1" ks) (GSAns (mk_gs "key1" true 2 false true (Some a) true)) GEErr.
+Example C18_example_six_key_specs :
+  forallb (fun p => match o_res (model (ex_raw false (fst p) (snd p))), o_res (model (ex_raw true (fst p) (snd p))) with
+                    | RSig false (Some _), RSig false (Some _) => true | _, _ => false end)
+          [("RSA-2048", PS256); ("RSA-3072", PS384); ("RSA-4096", PS512); ("EC-256", ES256); ("EC-384", ES384); ("EC-521", ES512)] = true /\
+  (* the leaf key calls for another algorithm than the described key spec: refused *)
+  o_res (model (ex_raw false "EC-256" ES384)) = RErr ECore /\
+  o_res (model (ex_raw false "EC-512" ES512)) = RErr EKeySpec.
+Proof. repeat split; vm_compute; reflexivity. Qed.
+
+(* C18_nil_signature / C18_nil_answer_error: a signature next to an unused nil answer; the same
+   request with the used answer nil *)
+Example C18_example_nil :
+  let i := ex_raw false "EC-256" ES256 in
+  o_res (model_n (mk_nils false false false true) i) = o_res (model i) /\
+  (exists rf, o_res (model i) = RSig false rf) /\
+  o_res (model_n (mk_nils false false true false) i) = RErr ENilGS /\
+  o_res (model_n (mk_nils false true false false) i) = RErr ENilDK /\
+  o_res (model_n (mk_nils true false false false) i) = RErr ENilMeta /\
+  o_res (model_n (mk_nils false false false true) (ex_input (JObj [("targetArtifact", ex_desc [])]))) = RErr ENilGE.
+Proof. repeat split; try (vm_compute; reflexivity). eexists. vm_compute. reflexivity. Qed.
+
+(* C18_oracle_explicit / C18_oracle_sound: an observation with a signature that passes the oracle *)
+Example C18_example_oracle :
+  let i := ex_raw true "EC-384" ES384 in
+  spec_ok i (model i) = true /\ (exists rf, o_res (model i) = RSig false (Some rf)).
+Proof. split; [vm_compute; reflexivity|eexists; vm_compute; reflexivity]. Qed.
